@@ -46,8 +46,10 @@ def check(ctx, src):
     ctx.check(node is not None and set(kw) == {"value", "conversion", "format_spec"} and CB.eq(node.keywords[[k.arg for k in node.keywords].index("value")].value, "value.force_expr")
               and isinstance(kw["conversion"].node, ast.Name) and kw["conversion"].node.id == cvar and isinstance(kw["format_spec"].node, ast.Name) and kw["format_spec"].node.id == CB.name("spec"), "FS-COMPILE", f"{compq.CP}|compile_fcomponent|fields", f"FormattedValue fields are {kw}", compq.CP, cf.lineno, detail=str(kw))
     ctx.check(spec_ok, "FS-COMPILE", f"{compq.CP}|compile_fcomponent|spec", "the format spec must be a JoinedStr of the remaining components, or None", compq.CP, cf.lineno, detail="JoinedStr / None")
-    split = pyq.contains(cf, lambda n: isinstance(n, ast.Assign) and norm(n) == "root, *rest = fcomponent")
-    ctx.check(split is not None, "FS-COMPILE", f"{compq.CP}|compile_fcomponent|value-then-spec", "the first child is the value, the rest the spec", compq.CP, cf.lineno, detail="root, *rest")
+    fp = cf.args.args[1].arg if len(cf.args.args) > 1 else "fcomponent"
+    texts_cf = str(flat(cf))
+    split = (f"self.compile({fp}[0])" in texts_cf or pm.find(cf, f"__ = self.compile({fp}[0])") is not None) and f"{fp}[1:]" in texts_cf
+    ctx.check(bool(split), "FS-COMPILE", f"{compq.CP}|compile_fcomponent|value-then-spec", "the first child is the value, the rest the spec", compq.CP, cf.lineno, detail="root, *rest")
     fs = src.py("hy/models.py").func("FString.__new__")
     ctx.require(fs is not None, "FString.__new__ not found")
     mo_ = src.py("hy/models.py")
